@@ -9,6 +9,7 @@ import (
 	"go/token"
 	"go/types"
 	"math"
+	"os"
 	"strings"
 	"sync"
 
@@ -36,6 +37,7 @@ type fnInfo struct {
 }
 
 var fnInfoCache sync.Map
+var traceCalls = os.Getenv("GOSYM_TRACE") != ""
 
 func getFnInfo(fn *ssa.Function) *fnInfo {
 	if fi, ok := fnInfoCache.Load(fn); ok {
@@ -112,6 +114,7 @@ type Exec struct {
 	initMode   bool
 	globals    map[*ssa.Global]*Cell
 	pkgInit    map[*ssa.Package]bool
+	pkgInitBad map[*ssa.Package]string
 	steps      int
 	depth      int
 	frame      *Frame
@@ -127,6 +130,8 @@ type Exec struct {
 	pending    []workItem // alternatives discovered on this path
 	threads    *threadState
 	syncLen    int
+	inInitGuard bool
+	cpos       int
 
 	emptyStr  *StrV
 	byteConst [256]*Term
@@ -469,6 +474,11 @@ func (ex *Exec) constValue(c *ssa.Const) Value {
 
 func (ex *Exec) globalCell(g *ssa.Global) *Cell {
 	if c, ok := ex.globals[g]; ok {
+		if len(ex.pkgInitBad) > 0 && !ex.initMode {
+			if why, bad := ex.pkgInitBad[g.Pkg]; bad {
+				ex.inconclusive("global " + g.String() + " of a package whose initialiser did not complete: " + why)
+			}
+		}
 		return c
 	}
 	// allocate every global of the package as init-epoch cells, then run its initialiser
@@ -509,8 +519,10 @@ func (ex *Exec) ensurePkgInit(pkg *ssa.Package) {
 					switch e := r.(type) {
 					case pathEnd:
 						ex.h.note("init of " + pkg.Pkg.Path() + " incomplete: " + e.msg)
+						ex.pkgInitBad[pkg] = e.msg
 					case *GoPanic:
 						ex.h.note("init of " + pkg.Pkg.Path() + " panicked: " + e.msg)
+						ex.pkgInitBad[pkg] = e.msg
 					default:
 						panic(r)
 					}
@@ -546,6 +558,10 @@ func (ex *Exec) call(fn *ssa.Function, args []Value, fv []Value) Value {
 		// package initialisers are run on demand, not from one another
 		return nil
 	}
+	if ex.initMode && ex.frame != nil && !ex.inInitGuard && ex.frame.fn.Name() == "init" && ex.frame.fn.Pkg != nil && ex.frame.fn == ex.frame.fn.Pkg.Func("init") {
+		// a failing initialiser expression makes that one global opaque, not the rest of the package
+		return ex.guardedInitCall(fn, args, fv)
+	}
 	if rep := ex.ld.replacement(fn); rep != nil {
 		if rep.model != nil {
 			ex.stubsSeen[rep.desc] = true
@@ -572,6 +588,16 @@ func (ex *Exec) call(fn *ssa.Function, args []Value, fv []Value) Value {
 	if !ex.initMode {
 		ex.fnsSeen[fn] = true
 	}
+	if traceCalls {
+		as := make([]string, len(args))
+		for i, a := range args {
+			as[i] = describe(a)
+		}
+		fmt.Fprintf(os.Stderr, "%*scall %s(%s)\n", ex.depth*2, "", fn.String(), strings.Join(as, ", "))
+		defer func() {
+			fmt.Fprintf(os.Stderr, "%*sret  %s\n", ex.depth*2, "", fn.Name())
+		}()
+	}
 	fi := getFnInfo(fn)
 	f := &Frame{fn: fn, fi: fi, env: make([]Value, fi.n), caller: ex.frame}
 	if len(args) != len(fn.Params) {
@@ -587,6 +613,53 @@ func (ex *Exec) call(fn *ssa.Function, args []Value, fv []Value) Value {
 	}
 	ex.runBlocks(f, fn.Blocks[0])
 	return f.result
+}
+
+// initExec runs one instruction of a package initialiser; a failure makes its result opaque.
+func (ex *Exec) initExec(f *Frame, in ssa.Instruction) {
+	defer func() {
+		if r := recover(); r != nil {
+			ex.frame = f
+			switch e := r.(type) {
+			case pathEnd:
+				ex.h.note("initialiser instruction made opaque: " + e.msg)
+			case *GoPanic:
+				ex.h.note("initialiser instruction panicked (made opaque): " + e.msg)
+			default:
+				if _, ok := r.(error); !ok {
+					if _, ok := r.(string); !ok {
+						panic(r)
+					}
+				}
+				ex.h.note(fmt.Sprintf("initialiser instruction failed on opaque operand (made opaque): %v", r))
+			}
+			if v, ok := in.(ssa.Value); ok {
+				ex.set(f, v, OpaqueV{"failed initialiser instruction"})
+			}
+		}
+	}()
+	ex.exec(f, in)
+}
+
+func (ex *Exec) guardedInitCall(fn *ssa.Function, args []Value, fv []Value) (res Value) {
+	savedFrame, savedDepth := ex.frame, ex.depth
+	ex.inInitGuard = true
+	defer func() {
+		ex.inInitGuard = false
+		if r := recover(); r != nil {
+			ex.frame, ex.depth = savedFrame, savedDepth
+			switch e := r.(type) {
+			case pathEnd:
+				ex.h.note("initialiser call " + fn.String() + " made opaque: " + e.msg)
+			case *GoPanic:
+				ex.h.note("initialiser call " + fn.String() + " panicked (made opaque): " + e.msg)
+			default:
+				panic(r)
+			}
+			res = ex.opaqueResult(fn, "failed initialiser "+fn.String())
+		}
+	}()
+	return ex.call(fn, args, fv)
 }
 
 func (ex *Exec) opaqueResult(fn *ssa.Function, why string) Value {
@@ -759,7 +832,11 @@ func (ex *Exec) runBlocks(f *Frame, start *ssa.BasicBlock) {
 				v := ex.get(f, x.X)
 				panic(&GoPanic{val: v, msg: "panic: " + ex.describePanic(v) + ex.where()})
 			default:
-				ex.exec(f, in)
+				if ex.initMode && !ex.inInitGuard && f.fn.Name() == "init" {
+					ex.initExec(f, in)
+				} else {
+					ex.exec(f, in)
+				}
 			}
 		}
 		prev = b
@@ -1632,12 +1709,27 @@ func (ex *Exec) convert(v Value, from, to types.Type) Value {
 					}
 					return ex.strConst(string(r))
 				}
-				// symbolic: only the ASCII case is supported without forking on encodings
+				// symbolic: fork on the UTF-8 encoding length
 				w64 := ex.toWidth(x, 64, isSigned(from))
-				if ex.branch(tc.CmpBV(OUlt, w64, tc.Const(BV(64), 0x80))) {
-					return &StrV{b: []*Term{tc.Extract(w64, 7, 0)}}
+				c := func(v uint64) *Term { return tc.Const(BV(64), v) }
+				b8 := func(t *Term) *Term { return tc.Extract(t, 7, 0) }
+				or := func(a *Term, v uint64) *Term { return tc.BinBV(OBOr, a, c(v)) }
+				shr := func(a *Term, n uint64) *Term { return tc.BinBV(OLShr, a, c(n)) }
+				low6 := func(a *Term) *Term { return tc.BinBV(OBAnd, a, c(0x3f)) }
+				if ex.branch(tc.CmpBV(OUlt, w64, c(0x80))) {
+					return &StrV{b: []*Term{b8(w64)}}
 				}
-				ex.inconclusive("string(rune) of symbolic non-ASCII value")
+				if ex.branch(tc.CmpBV(OUlt, w64, c(0x800))) {
+					return &StrV{b: []*Term{b8(or(shr(w64, 6), 0xC0)), b8(or(low6(w64), 0x80))}}
+				}
+				bad := tc.Or(tc.CmpBV(OUlt, c(0x10FFFF), w64), tc.And(tc.CmpBV(OUle, c(0xD800), w64), tc.CmpBV(OUle, w64, c(0xDFFF))))
+				if ex.branch(bad) {
+					return ex.strConst("\uFFFD")
+				}
+				if ex.branch(tc.CmpBV(OUlt, w64, c(0x10000))) {
+					return &StrV{b: []*Term{b8(or(shr(w64, 12), 0xE0)), b8(or(low6(shr(w64, 6)), 0x80)), b8(or(low6(w64), 0x80))}}
+				}
+				return &StrV{b: []*Term{b8(or(shr(w64, 18), 0xF0)), b8(or(low6(shr(w64, 12)), 0x80)), b8(or(low6(shr(w64, 6)), 0x80)), b8(or(low6(w64), 0x80))}}
 			}
 			ex.inconclusive(fmt.Sprintf("convert term to %v", to))
 		}
